@@ -931,10 +931,34 @@ pub fn persist_violation(
     match case_in_child(launcher, &minimal.case) {
         Ok(Some((cl, _))) if cl == class => {}
         other => {
-            return Err(format!(
-                "replay of {} in a fresh process did not reproduce class '{class}': {other:?}",
-                path.display()
-            ))
+            // a crash that follows memory corruption may depend on the layout
+            // of the process: fall back to the case as it was found (not
+            // minimised) if that one reproduces in a fresh process
+            let mut recovered = false;
+            if crash {
+                for _ in 0..3 {
+                    if let Ok(Some((cl, _))) = case_in_child(launcher, &v.case) {
+                        if cl == class {
+                            recovered = true;
+                            break;
+                        }
+                    }
+                }
+            }
+            if !recovered {
+                return Err(format!(
+                    "replay of {} in a fresh process did not reproduce class '{class}': {other:?}",
+                    path.display()
+                ));
+            }
+            let _ = std::fs::remove_file(&path);
+            let unminimised = Violation {
+                property: v.property.clone(),
+                class: class.clone(),
+                detail: v.detail.clone(),
+                case: v.case.clone(),
+            };
+            return persist_unminimised(unminimised, seed, run, config, launcher);
         }
     }
     let known = crate::known::lookup(&minimal.property, &sig);
@@ -945,6 +969,50 @@ pub fn persist_violation(
         seed,
         run,
     })
+}
+
+/// Writes the replay file of a crash whose minimised form did not reproduce
+/// in a fresh process; the case is stored as found.
+fn persist_unminimised(
+    v: Violation,
+    seed: u64,
+    run: Option<u64>,
+    config: &str,
+    launcher: &Launcher,
+) -> Result<Finding, String> {
+    let dir = out_dir().join("replays");
+    std::fs::create_dir_all(&dir).map_err(|e| e.to_string())?;
+    let sig = crate::dispatch::signature(&v);
+    let name = format!(
+        "{}-{}-{:08x}.json",
+        v.property,
+        v.class.replace(|c: char| !c.is_ascii_alphanumeric() && c != '-', "_"),
+        crate::prng::fnv64(v.case.to_string().as_bytes()) as u32
+    );
+    let path = dir.join(name);
+    let file = J::obj()
+        .set("property", J::s(&v.property))
+        .set("class", J::s(&v.class))
+        .set("detail", J::s(&v.detail))
+        .set("signature", J::s(&sig))
+        .set("verif_seed", J::s(&seed.to_string()))
+        .set("run", run.map(J::u).unwrap_or(J::Null))
+        .set("config", J::s(config))
+        .set(
+            "launcher",
+            J::s(match launcher {
+                Launcher::Miri => "miri",
+                Launcher::Asan => "asan",
+                Launcher::Native => "native",
+            }),
+        )
+        .set("shrink_candidates_tried", J::u(0))
+        .set("minimised", J::Bool(false))
+        .set("original_case_bytes", J::u(v.case.to_string().len() as u64))
+        .set("case", v.case.clone());
+    std::fs::write(&path, file.to_pretty()).map_err(|e| e.to_string())?;
+    let known = crate::known::lookup(&v.property, &sig);
+    Ok(Finding { violation: v, replay_path: path, known, seed, run })
 }
 
 pub fn replay_main(path: &str) -> i32 {
